@@ -27,6 +27,9 @@ import functools
 import hashlib
 import inspect
 import itertools
+import json
+import os
+import subprocess
 import random
 import re
 import sys
@@ -525,7 +528,7 @@ def gen_template(rng, H, f, kind=None):
     nm = len(fam["members"])
     has_sib = f + 1 < len(H["fams"]) and H["fams"][f + 1].get("sib")
     kinds = ["tensordot", "tensordot", "add", "fuse", "fuse", "fused_dot", "fused_add", "svd", "qr", "mask", "broadcast",
-             "swap", "ncon", "vdot", "fused_svd", "drop_dot"]
+             "swap", "ncon", "vdot", "fused_svd", "drop_dot", "dense", "dense", "einsum", "einsum", "leg", "leg"]
     if fam["paired"]:
         kinds += ["trace", "trace", "ncon_trace", "fused_trace"]
     if fam.get("uniform"):
@@ -577,6 +580,18 @@ def gen_template(rng, H, f, kind=None):
         outs = list(range(nout))
         rng.shuffle(outs)
         t.update(legs=legs, outs=outs, swap=rng.random() < 0.4, order=rng.random() < 0.3)
+    elif kind == "dense":      # dense output with the sectors in ascending / descending order
+        t.update(p=_rand_perm(rng, d), reverse=rng.random() < 0.5, native=rng.random() < 0.3, consume=rng.random() < 0.3)
+    elif kind == "einsum":     # same contraction as 'ncon', written with subscripts; swap / order given as strings
+        k = rng.randint(1, d)
+        legs = sorted(rng.sample(range(d), k))
+        outs = list(range(2 * (d - k)))
+        rng.shuffle(outs)
+        t.update(legs=legs, outs=outs, swap=rng.choice((0, 0, 1, 2)), order=rng.choice((0, 0, 1, 2)))
+    elif kind == "leg":        # construction of a Leg (and a tensor on it) from user-given charges, possibly outside the group's range
+        n = rng.randint(1, 3)
+        pool_t = list(itertools.product(range(-1, 5), repeat=fam["nsym"]))
+        t.update(s=rng.choice((1, -1)), ts=[list(x) for x in rng.sample(pool_t, n)], Ds=[rng.randint(1, 3) for _ in range(n)])
     return t
 
 
@@ -590,6 +605,10 @@ def vary_template(rng, H, t):
         chosen = [rng.choice(("pb", "pb", "pb", "m", "m", "legs", "pa"))]   # same first operand, different second / order
     elif t["kind"] == "trace" and rng.random() < 0.6:
         chosen = [rng.choice(("p", "tp"))]
+    elif t["kind"] == "einsum" and rng.random() < 0.8:
+        chosen = [rng.choice(("swap", "swap", "order"))]              # the same subscripts with another swap / order string
+    elif t["kind"] == "dense" and rng.random() < 0.8:
+        chosen = [rng.choice(("reverse", "reverse", "native", "m"))]  # the same legs in the other sector order
     else:
         chosen = ["m"] if rng.random() < 0.3 else rng.sample(fields, min(len(fields), rng.choice((1, 1, 2))))
     for k in chosen:
@@ -755,6 +774,40 @@ def exec_template(pool, t, v):
         if t["order"]:
             kw["order"] = list(range(len(t["legs"]), 0, -1))
         return [yastn.ncon([a, b], [tuple(ia), tuple(ib)], conjs=(0, 1), **kw)]
+    if kind == "dense":
+        a1 = _T(a, t["p"], t["consume"])
+        return [a1.to_numpy(reverse=t["reverse"], native=t["native"]), a1.to_nonsymmetric(reverse=t["reverse"], native=t["native"])]
+    if kind == "einsum":
+        d = pool.H["fams"][f]["ndim"]
+        low, up = "abcdefgh", "ABCDEFGHIJKLMNOP"
+        sa, sb, o = [""] * d, [""] * d, 0
+        for i in range(d):
+            if i in t["legs"]:
+                sa[i] = sb[i] = low[t["legs"].index(i)]
+        for i in range(d):
+            if i not in t["legs"]:
+                sa[i] = up[t["outs"][o]]
+                o += 1
+        for i in range(d):
+            if i not in t["legs"]:
+                sb[i] = up[t["outs"][o]]
+                o += 1
+        nc = len(t["legs"])
+        kw = {}
+        if t["swap"] == 1:
+            kw["swap"] = "ab" if nc >= 2 else ("aA" if o >= 1 else None)
+        elif t["swap"] == 2:
+            kw["swap"] = "ba,ab" if nc >= 2 else ("Aa" if o >= 1 else None)
+        if t["order"] == 1:
+            kw["order"] = low[:nc][::-1]
+        elif t["order"] == 2:
+            kw["order"] = low[:nc][1:] + low[:1]       # rotated; (for nc == 1 the same as the default)
+        sub = "".join(sa) + ",*" + "".join(sb) + "->" + up[:o]
+        return [yastn.einsum(sub, a, b, **kw)]
+    if kind == "leg":
+        cfg = pool.config(v)
+        leg = yastn.Leg(cfg, s=t["s"], t=[tuple(x) for x in t["ts"]], D=tuple(t["Ds"]))
+        return [[list(leg.t), list(leg.D), leg.s], yastn.ones(config=cfg, legs=[leg, leg.conj()])]
     raise ValueError(f"unknown template kind {kind}")
 
 
@@ -894,8 +947,13 @@ def do_clear():
     return reset_invariant("clear_cache", None)
 
 
-def run_history(ctx, H, deadline=None):
-    """execute one history under the monitors; returns number of findings registered"""
+def fp_digest(fp):
+    return hashlib.blake2b(repr(fp).encode(), digest_size=12).hexdigest()
+
+
+def run_history(ctx, H, deadline=None, digests=None):
+    """execute one history under the monitors; returns number of findings registered
+    (`digests`: dict event index -> digest of the warm result, filled for the fresh-process oracle)"""
     install()
     if not H.get("pristine", True) and not ST.split:
         do_resize(DEFAULT_MAXSIZE)  # reproduce the detached by-name bindings that any earlier resize leaves behind
@@ -937,6 +995,8 @@ def run_history(ctx, H, deadline=None):
             cold = evaluate(pool, t, v)
         finally:
             ST.bypass -= 1
+        if digests is not None:
+            digests[idx] = fp_digest(warm)
         ctx.count(f"op:{t['kind']}")
         if t["kind"] == "multi":
             ctx.count(f"op:multi:{t['subs'][0]['kind']}")
@@ -960,6 +1020,115 @@ def run_history(ctx, H, deadline=None):
                 ctx.notes.append(f"cold evaluation of {t['kind']} is not bit-reproducible on this backend; not compared")
     ST.tag = None
     return nfail
+
+
+# ==========================================================================================
+# (D) fresh-process oracle: a result never depends on which operations ran earlier in the process
+# ==========================================================================================
+
+def _fresh_eval(H, reverse):
+    """executed in a process that has run no yastn operation yet, on the plain code (no monitors): the events of H in the
+    given or in the REVERSED order; returns {event index: digest of the result}"""
+    import yastn
+    pool = Pool(H)
+    if H.get("init") is not None:
+        yastn.set_cache_maxsize(H["init"])
+    out = {}
+    order = range(len(H["events"]) - 1, -1, -1) if reverse else range(len(H["events"]))
+    for idx in order:
+        ev = H["events"][idx]
+        if ev[0] == "clear":
+            yastn.clear_cache()
+        elif ev[0] == "resize":
+            yastn.set_cache_maxsize(ev[1])
+        else:
+            out[str(idx)] = fp_digest(evaluate(pool, H["templates"][ev[1]], ev[2]))
+    return out
+
+
+def _fresh_server():
+    """`python -m harness.props.c16 --fresh-server`: yastn is imported once; every request {"H":…, "reverse":…} (one JSON line) is
+    answered from a forked child of this still pristine process (one JSON line)"""
+    import yastn  # noqa: F401
+    for line in sys.stdin:
+        if not line.strip():
+            continue
+        req = json.loads(line)
+        r, w = os.pipe()
+        pid = os.fork()
+        if pid == 0:
+            os.close(r)
+            try:
+                res = {"ok": _fresh_eval(req["H"], req["reverse"])}
+            except BaseException as e:  # noqa: BLE001
+                res = {"error": f"{type(e).__name__}: {e}"}
+            with os.fdopen(w, "w") as fh:
+                fh.write(json.dumps(res))
+            os._exit(0)
+        os.close(w)
+        with os.fdopen(r) as fh:
+            data = fh.read()
+        os.waitpid(pid, 0)
+        sys.stdout.write((data or '{"error": "no answer"}') + "\n")
+        sys.stdout.flush()
+
+
+def _fresh_batch(reqs, timeout):
+    """answers of one server process to a list of requests (None for a request that got no answer)"""
+    top = os.path.dirname(os.path.dirname(os.path.dirname(os.path.abspath(__file__))))
+    try:
+        cp = subprocess.run([sys.executable, "-m", "harness.props.c16", "--fresh-server"], cwd=top, text=True, timeout=timeout,
+                            input="".join(json.dumps(r) + "\n" for r in reqs), capture_output=True)
+        lines = [json.loads(x) for x in cp.stdout.splitlines() if x.strip()]
+    except Exception:  # noqa: BLE001  (time-out / broken pipe: no verdict from this batch)
+        lines = []
+    return [lines[i].get("ok") if i < len(lines) else None for i in range(len(reqs))]
+
+
+def fresh_oracle(ctx, jobs, timeout=120):
+    """jobs = [(H, digests of the warm results in the main process)].  Each history is executed twice in fresh processes (events in
+    the given and in the reversed order); every operation must give the same bits in both (and they are compared with the main
+    process).  A difference is confirmed by repeating both runs before it is reported."""
+    from concurrent.futures import ThreadPoolExecutor
+    if not jobs:
+        return
+    nproc = max(1, min(12, (os.cpu_count() or 4) - 2, len(jobs)))
+    reqs = [{"H": H, "reverse": rev} for H, _ in jobs for rev in (False, True)]
+    chunks = [list(range(i, len(reqs), nproc)) for i in range(nproc)]
+    with ThreadPoolExecutor(nproc) as ex:
+        answers = list(ex.map(lambda ch: _fresh_batch([reqs[i] for i in ch], timeout), chunks))
+    res = [None] * len(reqs)
+    for ch, ans in zip(chunks, answers):
+        for i, a in zip(ch, ans):
+            res[i] = a
+    for j, (H, dmain) in enumerate(jobs):
+        fwd, rev = res[2 * j], res[2 * j + 1]
+        if fwd is None or rev is None:
+            ctx.count("fresh:no-answer")
+            continue
+        ctx.count("fresh:histories-compared")
+        bad = sorted(int(k) for k in fwd if k in rev and fwd[k] != rev[k])
+        ctx.count("fresh:operations-compared", len([k for k in fwd if k in rev]))
+        if any(fwd.get(str(k)) != d for k, d in dmain.items() if str(k) in fwd):
+            # not judged: the main process carries the monitors and all earlier histories
+            ctx.count("fresh:main-process-differs")
+        if not bad:
+            continue
+        again = _fresh_batch([{"H": H, "reverse": False}, {"H": H, "reverse": True}], timeout)
+        if again[0] != fwd or again[1] != rev:
+            ctx.count("fresh:not-reproducible")
+            ctx.notes.append("a fresh-process evaluation was not bit-reproducible; not judged")
+            continue
+        idx = bad[0]
+        ev = H["events"][idx]
+        t, var = H["templates"][ev[1]], H["variants"][ev[2]]
+        ctx.fail("oracle", f"c16:history-dependent:{t['kind']}",
+                 f"{t['kind']} on {var['sym']} (fermionic={var['fermionic']}, policy={var['policy']}), event {idx} of the history, gives "
+                 f"different bits in two fresh processes that run the same events in the given and in the reversed order "
+                 f"({len(bad)} of {len(fwd)} operations differ): the result depends on which operations ran earlier",
+                 case=dict(H, failing_event=idx, oracle="fresh-process"), concrete=True)
+        if len([f for f in ctx.findings if f.concrete]) >= 3:
+            break
 
 
 # ==========================================================================================
@@ -1084,10 +1253,13 @@ def run(ctx):
     rng = ctx.rng
     quick = ctx.quick
     ctx.rule = ("histories = interleavings of 6-12 operation templates and near-copies of them (tensordot under the three policies, add, vdot, trace, "
-                "fuse_legs hard/meta + unfuse, svd, qr, apply_mask, broadcast, swap_gate, ncon) instantiated on tensors that share "
+                "fuse_legs hard/meta + unfuse, svd, qr, apply_mask, broadcast, swap_gate, ncon, einsum with swap/order strings, to_numpy/to_nonsymmetric "
+                "in ascending/descending sector order, Leg construction from user charges incl. out-of-range ones) instantiated on tensors that share "
                 "struct/slices but differ in symmetry (U1/Z2/Z3, U1xU1/Z2xU1), fermionic flag, policy or fusion history, with "
                 "clear_cache()/set_cache_maxsize(0|1|2|1024) at random points; every operation is computed warm and cold "
-                "(bit-identical), every cache hit is recomputed and digest-checked; a history is non-trivial if some cache hit was "
+                "(bit-identical), every cache hit is recomputed and digest-checked; every history is also executed in two FRESH processes, events in the "
+                "given and in the reversed order, and every operation must give the same bits in both (catches memoisation outside lru_cache); "
+                "a history is non-trivial if some cache hit was "
                 "served from an entry inserted while operating on a different variant")
     ctx.assumptions.append("purity and key adequacy of the 18 memoised functions are tested by the monitor on the driven histories, not proved")
     ctx.assumptions.append("maxsize=None, typed=True and Python's ==/hash identifications between keys are not modelled")
@@ -1109,6 +1281,7 @@ def run(ctx):
     budget = 40.0 if quick else 480.0
     t_start = time.time()   # budget of the workload itself (Lean build/audit time is not charged to it)
     t_end = t_start + budget
+    jobs = []
     n_pristine = 90 if quick else 800
     n_resizing = 290 if quick else 4000
     for phase, count in (("pristine", n_pristine), ("resizing", n_resizing)):
@@ -1121,10 +1294,14 @@ def run(ctx):
                 break
             H = gen_history(random.Random(f"{base}-{phase}-{i}"), phase == "resizing", quick)
             before = ST.stats["foreign_hits"]
-            run_history(ctx, H, deadline=t_end + 10)
+            dg = {}
+            run_history(ctx, H, deadline=t_end + 10, digests=dg)
+            jobs.append((H, dg))
             ctx.count(f"histories:{phase}")
             ctx.case({"phase": phase, "variants": H["variants"], "templates": [t["kind"] for t in H["templates"]],
                       "events": H["events"], "init": H["init"]}, nontrivial=ST.stats["foreign_hits"] > before)
+    if not any(f.concrete for f in ctx.findings):
+        fresh_oracle(ctx, jobs, timeout=120 if quick else 900)
     for k, v in sorted(ST.stats.items()):
         ctx.count(k, v)
     hitfuncs = sorted(k[4:] for k in ST.stats if k.startswith("hit:"))
@@ -1144,15 +1321,24 @@ def search(ctx, broken, budget):
     t_end = time.time() + min(budget, 40)
     install()
     i = 0
+    jobs = []
     while time.time() < t_end and not any(f.concrete for f in ctx.findings):
-        run_history(ctx, gen_history(random.Random(f"{base}-search-{i}"), True, ctx.quick), deadline=t_end)
+        H = gen_history(random.Random(f"{base}-search-{i}"), True, ctx.quick)
+        dg = {}
+        run_history(ctx, H, deadline=t_end, digests=dg)
+        jobs.append((H, dg))
         i += 1
+    if not any(f.concrete for f in ctx.findings):
+        fresh_oracle(ctx, jobs)
 
 
 def replay(ctx, obj):
     case = (obj.get("finding") or {}).get("case") or obj
     if "events" in case and "templates" in case:      # one history of the monitored workload: self-contained
-        run_history(ctx, case)
+        dg = {}
+        run_history(ctx, case, digests=dg)
+        if not any(f.concrete for f in ctx.findings):
+            fresh_oracle(ctx, [({k: v for k, v in case.items() if k not in ("failing_event", "oracle")}, dg)])
         return
     if "partA_events" in case:                         # clear/resize bookkeeping is replayable without the argument tuples
         import yastn
@@ -1176,3 +1362,7 @@ def replay(ctx, obj):
         ctx.rng = random.Random(f"{ctx.pid}-{rr['seed']}")
         ctx.quick = rr.get("tier", "quick") == "quick"
     run(ctx)
+
+
+if __name__ == "__main__" and "--fresh-server" in sys.argv:
+    _fresh_server()
